@@ -8,6 +8,7 @@ import (
 	"path/filepath"
 	"strings"
 	"time"
+	"unicode"
 	"unicode/utf8"
 
 	"github.com/edutko/decipher/internal/file"
@@ -111,7 +112,7 @@ func inspectFile(filePath string) {
 	}
 
 	// file names come from the scanned tree (or an unpacked archive) and are as untrusted as file contents
-	fmt.Printf("%s: ", sanitize(info.Path))
+	fmt.Printf("%s: ", sanitizeLead(info.Path))
 	printInfo(info, 0)
 }
 
@@ -125,9 +126,9 @@ func inspectStdin() {
 
 func printInfo(info file.Info, indent int) {
 	indentStr := strings.Repeat(" ", indent)
-	fmt.Printf("%s%s\n", indentStr, sanitize(info.Description))
+	fmt.Printf("%s%s\n", indentStr, sanitizeLead(info.Description))
 	for _, a := range info.Attributes {
-		fmt.Printf("%s  %s: %s\n", indentStr, sanitize(a.Name), sanitize(a.Value))
+		fmt.Printf("%s  %s: %s\n", indentStr, sanitizeLead(a.Name), sanitize(a.Value))
 	}
 	for _, child := range info.Children {
 		printInfo(child, indent+2)
@@ -151,6 +152,22 @@ func sanitize(s string) string {
 		i += w
 	}
 	return b.String()
+}
+
+// sanitizeLead is sanitize for text that starts an output line: its leading white space is escaped as well (\xNN, or
+// \uNNNN above U+00FF), so that text taken from the inspected file cannot choose its own indentation and pose as an item
+// of another level of the report.
+func sanitizeLead(s string) string {
+	rest := strings.TrimLeftFunc(s, unicode.IsSpace)
+	var b strings.Builder
+	for _, r := range s[:len(s)-len(rest)] {
+		if r < 0x100 {
+			fmt.Fprintf(&b, "\\x%02x", r)
+		} else {
+			fmt.Fprintf(&b, "\\u%04x", r)
+		}
+	}
+	return b.String() + sanitize(rest)
 }
 
 var Version = "0.0.0"
